@@ -509,7 +509,10 @@ def match_finding(findings, prop, key):
 # evidence
 
 def write_evidence(prop, tier, seed, coverage, assumptions, wall_s, violations):
-    path = os.path.join(VERIF_DIR, 'evidence', prop + '.json')
+    # VERIF_EVIDENCE_DIR is only set by the sensitivity self-test (runs against a mutated
+    # scratch copy must not overwrite the evidence of /repo)
+    path = os.path.join(os.environ.get('VERIF_EVIDENCE_DIR') or os.path.join(VERIF_DIR, 'evidence'),
+                        prop + '.json')
     os.makedirs(os.path.dirname(path), exist_ok=True)
     ev = {
         'property_id': prop, 'tier': tier, 'seed': seed, 'level': 'exploration',
